@@ -226,10 +226,30 @@ func ExpectStruct(p *idl.Program, d *idl.Decl, v reflect.Value) (*Node, error) {
 		}
 		fv := v.Field(i)
 		optional := f.Req == "optional" || d.Kind == "union"
-		if optional {
-			if !isNilable(fv.Kind()) {
+		if optional && !isNilable(fv.Kind()) {
+			// Thrift-Go's documented convention for an optional scalar with a default: a plain
+			// value which counts as set iff it differs (Go's !=) from the default
+			if f.Default == nil {
 				return nil, specf("%s: optional field %d (%s) is a Go %s, which cannot express \"unset\"", d.Name, f.ID, f.Name, fv.Kind())
 			}
+			dn, err := valueNode(p, f.Type, f.Default)
+			if err != nil {
+				return nil, specf("%s field %d (%s): default: %v", d.Name, f.ID, f.Name, err)
+			}
+			val, err := ExpectValue(p, f.Type, fv)
+			if err != nil {
+				return nil, specf("%s field %d (%s): %v", d.Name, f.ID, f.Name, err)
+			}
+			same := val.Canon() == dn.Canon()
+			if val.T == thrift.DOUBLE {
+				same = val.Float() == dn.Float()
+			}
+			if !same {
+				n.Fields = append(n.Fields, FieldNode{int16(f.ID), val})
+			}
+			continue
+		}
+		if optional {
 			if fv.IsNil() {
 				continue
 			}
@@ -350,7 +370,30 @@ func GenStructTree(t *rapid.T, p *idl.Program, d *idl.Decl, depth int) *Node {
 		} else if optional && !rapid.Bool().Draw(t, "set?") {
 			continue
 		}
-		n.Fields = append(n.Fields, FieldNode{int16(f.ID), GenTree(t, p, f.Type, depth)})
+		val := GenTree(t, p, f.Type, depth)
+		if val.T == thrift.DOUBLE && f.Default != nil && rapid.IntRange(0, 2).Draw(t, "near-default") == 0 {
+			// a value next to the declared default without being it (presence of an optional field
+			// with a default is decided by comparing with the default)
+			if dn, err := valueNode(p, f.Type, f.Default); err == nil && dn != nil && dn.T == thrift.DOUBLE {
+				def := dn.Float()
+				near := []float64{math.Nextafter(def, math.Inf(1)), math.Nextafter(def, math.Inf(-1)), def + 1e-12, def - 1e-10, def + 1e-9, def * (1 + 1e-15)}
+				d := rapid.SampledFrom(near).Draw(t, "near")
+				if d == 0 {
+					d = 0
+				}
+				val.DB = math.Float64bits(d)
+			}
+		}
+		if optional && d.Kind != "union" && f.Default != nil {
+			// an optional scalar holding its default counts as unset (Thrift-Go's convention): such a
+			// value is the same case as "absent", so it is not drawn as "present"
+			if dn, err := valueNode(p, f.Type, f.Default); err == nil && dn != nil {
+				if val.Canon() == dn.Canon() || val.T == thrift.DOUBLE && val.Float() == dn.Float() {
+					continue
+				}
+			}
+		}
+		n.Fields = append(n.Fields, FieldNode{int16(f.ID), val})
 	}
 	return n
 }
@@ -455,6 +498,14 @@ func FillFromTree(p *idl.Program, d *idl.Decl, v reflect.Value, n *Node) error {
 		}
 		if fn == nil {
 			v.Field(i).Set(reflect.Zero(v.Field(i).Type()))
+			if f.Req == "optional" && f.Default != nil && !isNilable(v.Field(i).Kind()) {
+				// an unset optional scalar with a default holds the default
+				if dn, err := valueNode(p, f.Type, f.Default); err == nil {
+					if dv, err := FromTree(p, f.Type, v.Field(i).Type(), dn); err == nil {
+						v.Field(i).Set(dv)
+					}
+				}
+			}
 			continue
 		}
 		fv, err := FromTree(p, f.Type, v.Field(i).Type(), fn)
